@@ -26,9 +26,20 @@ structure Round where
   actors : List PeerCfg               -- in the order they acted
   failed : Option Nat
   pre : PinMap
+  views : List (Nat × List Nat) := []   -- members whose own view of the peerset is not `w.members`
+  nonPing : Bool := false               -- the alert names another metric than the ping metric: no peer was declared failed
   deriving Repr
 
-abbrev Logs := List (Nat × List C04.LogEntry)    -- per acting member
+/-- "given members agree on the peerset": no acting member misses a member the others see -/
+def Round.agreed (r : Round) : Bool := r.views.all (fun v => (r.w.members.map (·.1)).all v.2.contains)
+
+/-- "expired": the pin has an expiry (the zero time and the unix epoch mean none) and it lies strictly before now -/
+def specExpired (now : Int) : Stamp → Bool
+  | .zero => false
+  | .at t => decide (t ≠ 0 ∧ t < now)
+
+def samePinset (a b : PinMap) : Bool := a.all (fun p => b.get p.cid == some p) && b.all (fun p => a.get p.cid == some p)
+
 
 def healthyPeer (base : C04.Cfg) (p : Nat) : Bool :=
   (C03.stateOf { desc := false, rmin := 1, rmax := 1, peers := base.peers, current := [], blacklist := [], priority := [] } p).healthy
@@ -61,7 +72,31 @@ def decider (r : Round) (failed : Nat) (c : Nat) : Option PeerCfg :=
 
 def canAct (a : PeerCfg) : Bool := !a.follower && !a.disableRepin
 
+/-- what the statement demands whatever the members see: nothing removed, nothing added, options kept,
+    pins the failed peer does not hold left alone; an unexpired pin unpinned by none -/
+def generalClauses (r : Round) (post : PinMap) (logs : Logs) : List (String × Bool) :=
+  match r.kind, r.failed with
+  | "sync", _ =>
+    r.pre.map (fun p => ("expiry_unexpired_unpinned_by_none",
+      expired p || p.type != .dataT || ((unpinLoggers logs p.cid).isEmpty && post.get p.cid == some p)))
+  | _, some failed =>
+    [("no_pin_removed", r.pre.all (fun p => (post.get p.cid).isSome) &&
+                        logs.all (fun l => l.2.all (fun e => match e with | .logUnpin _ => false | _ => true))),
+     ("nothing_added", post.all (fun q => (r.pre.get q.cid).isSome)),
+     ("options_preserved", r.pre.all (fun p => match post.get p.cid with
+        | some q => ({ q with allocs := p.allocs } : Pin) == p
+        | none => true)),
+     ("not_held_untouched", r.pre.all (fun p => p.allocs.contains failed ||
+        (post.get p.cid == some p && (pinLoggers logs p.cid).isEmpty)))]
+  | _, none => [("bad_round", false)]
+
+/-- a repeated alert: a pin that the first round re-homed away from the failed peer is not re-pinned again -/
+def rehomedOnce (failed : Nat) (post1 : PinMap) (logs1 logs2 : Logs) : Bool :=
+  post1.all (fun q => q.allocs.contains failed || (pinLoggers logs1 q.cid).isEmpty || (pinLoggers logs2 q.cid).isEmpty)
+
 def clauses (r : Round) (base : C04.Cfg) (post : PinMap) (logs : Logs) : List (String × Bool) :=
+  if r.nonPing then [("non_ping_alert_ignored", samePinset r.pre post && logs.all (fun l => l.2.isEmpty))] else
+  if !r.agreed then generalClauses r post logs else
   match r.kind, r.failed with
   | "sync", _ =>
     r.pre.map (fun p =>
